@@ -499,6 +499,15 @@ pub fn run(args: &[String]) -> i32 {
         );
         merge(&mut rep, "same_identifier_twice", accs, &stats, json!({"kinds": H_KINDS, "placements": H_PLACES, "serde_rename_on": H_RENAMES, "languages": 6}));
     }
+    let amb_k = if rep.thorough() { 3 } else { 2 };
+    super::common::ambient_family(&mut rep, "ambient_variations_items", amb_k + 1, |ch| { gen_items(ch, 2); }, |ch, acc| {
+        let c = gen_items(ch, 2);
+        check_items(&c, &ch.choices(), acc);
+    });
+    super::common::ambient_family(&mut rep, "ambient_variations_members", amb_k + 1, |ch| { gen_members(ch); }, |ch, acc| {
+        let c = gen_members(ch);
+        check_members(&c, &ch.choices(), acc);
+    });
     require_nonvacuous(&mut rep);
     rep.cov("rule", json!("items family: every sequence of 1..N items over 7 item kinds × annotated/un-annotated × module depth 0..2 × language: the definitions recovered from the output (minus Inner helpers) must equal the annotated items; members family: every skip pattern over three members (27) × skip spelling × attribute style × rename × 4 container kinds × language: members must equal the non-skipped source members in source order. non-trivial = something is un-annotated / nested in a module / skipped."));
     rep.assume("an annotated const in a backend without const support must make the run fail with an error; output without it is a silent omission");
